@@ -137,6 +137,13 @@ def _build(spec, seed=0):
         m = spec["mult"]
         if "scalar" in m:
             mult = scalar_of(m["scalar"])
+        elif "idtype" in m:
+            # multiplier stored in a narrow integer / bool / half-precision dtype (a 0/255 mask, int8 weights):
+            # values near the top of the type's range, so that arithmetic done IN that dtype overflows
+            r = _rng(seed, spec, "imult")
+            top = {"uint8": 255, "int8": 127, "int16": 32767, "bool": 1, "float16": 300}[m["idtype"]]
+            vals = np.array([top, top - 1, 0, 1, top // 2, 2])
+            mult = _record(vals[r.integers(0, len(vals), size=m["mshape"])].astype(m["idtype"]))
         else:
             mult = carray(m["mshape"], seed, spec, "mult", dyadic=m.get("dyadic", False))
         return L.Multiply(spec["ishape"], mult, conj=g("conj", False))
@@ -379,6 +386,10 @@ def leaf_specs(tier, classes=None):
             add(dict(op="Multiply", ishape=list(s), mult={"scalar": {"np": "complex64", "v": [0.5, 1.0]}}, conj=cj))
             for m in _bcast_patterns(list(s)):
                 add(dict(op="Multiply", ishape=list(s), mult={"mshape": m}, conj=cj))
+            if list(s) in ([3], [2, 3]):
+                for idt in ("uint8", "int8", "int16", "bool", "float16"):
+                    add(dict(op="Multiply", ishape=list(s), mult={"mshape": list(s), "idtype": idt}, conj=cj))
+                    add(dict(op="Multiply", ishape=list(s), mult={"mshape": list(s)[-1:], "idtype": idt}, conj=cj))
     # MatMul / RightMatMul: (..., m, n), batch patterns
     for m_, n_, k_ in itertools.product((1, 2, 3), repeat=3):
         if not T and (m_, n_, k_) not in ((1, 1, 1), (2, 3, 1), (3, 2, 2), (2, 2, 3), (1, 3, 2), (3, 1, 2)):
